@@ -429,6 +429,14 @@ inductive Op where
   | useCur                                   -- `x = group.subset_state`
   deriving Repr
 
+/-- `[vars[a] for a in as]`, `none` if some variable does not exist. -/
+def lookupAll {α : Type} (xs : List α) : List Nat → Option (List α)
+  | [] => some []
+  | a :: as =>
+    match xs[a]?, lookupAll xs as with
+    | some x, some r => some (x :: r)
+    | _, _ => none
+
 /-- What an op lets the outside see. -/
 inductive Obs where
   | none
@@ -472,7 +480,7 @@ def step (env : Env) (s : State) : Op → State × Obs
     | some x => ({ s with vars := s.vars ++ [.inv x] }, .none)
     | none => (s, .bad)
   | .multiOr as =>
-    match as.mapM (fun a => s.vars[a]?) with
+    match lookupAll s.vars as with
     | some (x :: xs) => ({ s with vars := s.vars ++ [.multiOr (x :: xs)] }, .none)
     | _ => (s, .bad)
   | .copy a =>
@@ -565,7 +573,7 @@ def step (tbl : ClassTable) (env : Env) (s : State) : Op → State × Out
     | some x => bindOpt s (mkInv tbl s.h.g x)
     | none => (s, ⟨.bad, none⟩)
   | .multiOr as =>
-    match as.mapM (fun a => s.vars[a]?) with
+    match lookupAll s.vars as with
     | some (x :: xs) => (bind s (mkMultiOr s.h.g (x :: xs)), ⟨.none, none⟩)
     | _ => (s, ⟨.bad, none⟩)
   | .copy a =>
